@@ -189,7 +189,11 @@ func treeListing(root string) map[string]string {
 func runTreeCase(carBin string, c *treeCase, base string) (string, string) {
 	sand, _ := os.MkdirTemp(base, "vh-tree-")
 	defer os.RemoveAll(sand)
-	src := filepath.Join(sand, "src")
+	wrapName := "src"
+	if c.Cfg.Spell == "hidden" {
+		wrapName = ".src"
+	}
+	src := filepath.Join(sand, wrapName)
 	os.Mkdir(src, 0o755)
 	if err := materialise(src, c.Tree); err != nil {
 		return "harness", err.Error()
@@ -284,8 +288,8 @@ func runTreeCase(carBin string, c *treeCase, base string) (string, string) {
 		rel := filepath.Join(parts...)
 		// what the source tree has at the corresponding place
 		srel := rel
-		if !c.Cfg.Nowrap && (c.Cfg.Spell == "abs" || c.Cfg.Spell == "") {
-			srel = strings.TrimPrefix(strings.TrimPrefix(rel, "src"), string(os.PathSeparator))
+		if !c.Cfg.Nowrap && (c.Cfg.Spell == "abs" || c.Cfg.Spell == "" || c.Cfg.Spell == "hidden") {
+			srel = strings.TrimPrefix(strings.TrimPrefix(rel, wrapName), string(os.PathSeparator))
 		}
 		if srel == "" {
 			want[rel] = "dir"
